@@ -40,8 +40,9 @@ Proof.
     as (Gst & Glt & Gne & Ghd & Glink & Gstored & Gdiff & Golds).
   destruct (no st <? lib n).
   { inversion R; subst. auto. }
-  destruct (rollforward apply (set_sdb n (root st)) (rev news)) as [n2 ok] eqn:RF.
+  destruct (rollforward apply (set_state n (root st)) (rev news)) as [n2 ok] eqn:RF.
   destruct (rollforward_frame apply _ _ _ _ RF) as (Fb & Fo & Fbad & Flib & Ff & Fm & Fr & Fok).
+  pose proof (rollforward_pmem apply _ _ _ _ RF eq_refl) as Fp.
   simpl in Fb, Fo, Fbad, Flib, Ff, Fm, Fr, Fok.
   destruct ok.
   - inversion R; subst; clear R.
@@ -57,6 +58,7 @@ Proof.
     + rewrite Fo. apply (i_orph _ _ _ _ _ I).
     + intros id x Hx. rewrite <- Hx. apply get_block_ext. apply Ff; intros; discriminate.
     + intros id x. rewrite Ff by (intros; discriminate). apply (i_univ _ _ _ _ _ I).
+    + rewrite (i_params _ _ _ _ _ I). symmetry. apply (i_sdb _ _ _ _ _ I).
 Qed.
 
 Lemma is_main_chain_true n b : Inv n -> is_main_chain f27 n b = Some true -> (f27 = true \/ no b <> 0) ->
@@ -157,6 +159,7 @@ Proof.
   - intros id x. rewrite D. destruct (hash_field g =? id) eqn:E; [|discriminate].
     intros H. inversion H; subst. apply N.eqb_eq in E. auto.
   - contradiction.
+  - reflexivity.
 Qed.
 
 (** Query surface: under the invariant every transaction of a main-chain block is reported
